@@ -87,8 +87,12 @@ CLAIMED = {
   "DESIGN.md §0.3 C19"),
  "C08": (
   "Deductive proof of the two foreign key refusal decisions over an abstraction of the index lookups: if UpdateTran.fkeyDeleteBlock returns normally then EVERY foreign key that points at the index either cascades the kind of change being made (delete / key update) or has no referencing source rows (loop invariant over FkToHere, quantified post-condition taken from the property statement); if fkeyOutputBlock returns normally then the index has no foreign key, or the key value is empty, or the target row exists.",
-  "Scope: the block/allow decision logic only. fkeyDeleteExists/fkeyOutputExists (the index range lookups, rangeEnd) are abstracted by uninterpreted predicates through assumed contracts; Spec.Key/Trunc/Encodes, ixkey.Encode, Meta.GetRoSchema are assumed effect-free; run-time panic freedom is not claimed here (contract mode 'nosafety': bounds depend on schema metadata consistency, C21). NOT covered: that Delete passes CascadeDeletes and update passes CascadeUpdates at the two call sites (functions with defer/recover, outside the subset), the cascade loops (fkeyDeleteCascade/fkeyUpdateCascade), rangeEnd, createFkeys/linkFkeys, and the committed-state invariant under concurrency (C01/C07). One genuine defect found by the loop invariant obligation was fixed (cascade update let referenced rows be deleted).",
+  "Scope: the block/allow decision logic only. fkeyDeleteExists/fkeyOutputExists (the index range lookups, rangeEnd) are abstracted by uninterpreted predicates through assumed contracts; Spec.Key/Trunc/Encodes, ixkey.Encode, Meta.GetRoSchema are assumed effect-free; run-time panic freedom is not claimed here (contract mode 'nosafety': bounds depend on schema metadata consistency, C21). The call sites are under contract too (loop invariants over a ghost log of the arguments each block function last returned normally for): Delete has made the delete-block check with CascadeDeletes and the record's own key for every index, update the delete-block check with CascadeUpdates and the OLD key plus (unless cascading) the output check on the new record for every index whose key changes, Output the output check for every index - each before any index is changed. NOT covered: the cascade loops (fkeyDeleteCascade/fkeyUpdateCascade), rangeEnd, createFkeys/linkFkeys, and the committed-state invariant under concurrency (C01/C07). One genuine defect found by the loop invariant obligation was fixed (cascade update let referenced rows be deleted).",
   "DESIGN.md §0.3 C08"),
+ "C07": (
+  "Deductive proof of the duplicate key decision a row change goes through: needsDupCheck is exactly 'primary key, or unique index that is not covered by a key and whose fields are not all empty'; if dupOutputBlock returns normally for an index that needs the check then the transaction's layered view of that index (Overlay.Lookup, see C16) has no row with the new key AND the point read of that key was registered with the conflict checker (the hook that makes a concurrent transaction adding the same key conflict); and at the call sites (loop invariants over a ghost log of dupOutputBlock's arguments): Output has made that check, with the new record and this index's own key and overlay, for every index it has passed - or, for a key with no columns, has refused when the table already has a row - and update has made it for every index whose key changes, with the NEW key, before any index is changed.",
+  "Scope: the sequential decision and its registration. The concurrent half of the property - that the registered read makes the checker abort one of two transactions adding the same key (Check.Output/Read, C01) - is NOT covered, nor that commit/merge preserve uniqueness (C06), nor uniqueIndexEmpty and Spec.Key (abstracted by uninterpreted functions through assumed contracts), nor that the index lists of schema and info correspond (C21). Overlay.Lookup is used through its proved contract (C16). Run-time panic freedom is not claimed here ('nosafety').",
+  "DESIGN.md §0.3 C07"),
  "C13": (
   "Deductive proof about packed scalar values: (1) the fixed-size Encoder/Decoder primitives of util/pack (Put1/2/4, Put, PutStr, Uint16/Uint32/Int32 and their decoders) against exact byte-level contracts incl. capacity, frame and big-endian round-trip/order lemmas; (2) SuDnum.PackSize equals the number of bytes SuDnum.Pack writes (no buffer overrun), Pack writes exactly tag, exponent byte and the base-100 digit pairs of the coefficient with trailing zero pairs dropped and every byte complemented for negative numbers (10 byte-level post-conditions), unpackDnum rebuilds sign/exponent/coefficient from those bytes, with lemmas that the pairs are in 0..99, recombine to the coefficient and that dropped pairs are zero (so unpack inverts pack); (3) ORDER: three lemmas over the proved byte functions show that the byte order of packed decimals equals the decimal order for all non-negative pairs, all mixed-sign pairs and all negative pairs except the prefix class below; (4) packSizeInt against a digit-level definition for all int64 (three loops completely unrolled, unwinding obligations discharged); (5) SuBool, SuStr, SuDate, SuTimestamp Pack/PackSize byte-exact, UnpackDate/UnpackTimestamp inverse on those bytes.",
   "KNOWN FINDING (genuine defect, not repaired, see known_findings.jsonl and findings/C13-negative-prefix-order): two negative numbers whose digit-pair strings are a proper prefix of one another (-12 vs -12.5, -1200 vs -1234) pack in the reverse of their value order; indexes on negative numbers are mis-sorted and range queries return wrong rows. NOT covered: packInt's bytes (only its size; the obligations did not discharge), hence 'equal scalars pack to identical bytes' between SuInt64 and SuDnum is not proved; unpackInt/intable; objects/records (nesting, PackSize2 stack); the value-level composition Unpack(Pack(v)).Equal(v) is argued from the byte-level contracts, not stated as one theorem. Sequential semantics; hacks.BStoS assumed.",
@@ -110,7 +114,6 @@ NA = {
  "C04": "quantifies over arbitrary histories followed by close/reopen with file I/O and HAMT chain writing; no contract within reach",
  "C05": "contracts designed (readState, repair.search) but not yet discharged; crash-point enumeration itself is not expressible",
  "C06": "cross-index invariant over every visible state of every history under background merge; not per-call",
- "C07": "concurrent half rests on C01; sequential half would restate the code over Overlay.Lookup contents",
  "C08": "contracts designed (fkey block/cascade decision) but not yet discharged",
  "C09": "iterator-protocol (history) property over a k-way merge of heterogeneous iterators",
  "C10": "contracts designed (btree node layout) but not yet discharged",
